@@ -313,6 +313,8 @@ def showMEff : MEff → String
   | .adapterEnd c => "ae:" ++ c
   | .handlerExc => "handler"
   | .sent b => "sent:" ++ Hex.ofStr b
+  | .enqueuePill => "enq:" ++ Hex.ofStr stopPill
+  | .sockClose => "sockclose"
 
 def parseMOp (ts : List String) : Option MOp :=
   match ts with
@@ -322,6 +324,8 @@ def parseMOp (ts : List String) : Option MOp :=
   | ["put"] => some .put
   | ["get"] => some .get
   | ["send"] => some .send
+  | ["join"] => some .join
+  | ["poolwait"] => some .poolWait
   | ["start"] => some .taskStart
   | ["abegin"] => some .adapterBegin
   | "aend" :: rest => match parseOutcomes rest [] with
